@@ -1,0 +1,6 @@
+//go:build !verif
+// +build !verif
+
+package state
+
+func verifCtxOp(w *ViewContexts, op string, hv *HeightView, res string) {}
